@@ -896,6 +896,13 @@ func (c *EvalCtx) evalCall(e *Expr) *V {
 		// received(ch): number of values successfully received from channel ch by this activation tree
 		argc(1)
 		return vInt(sSel(st.comp("nrecv", 1, "Int"), c.intOf(e.Args[0])), types.Typ[types.Int])
+	case "events":
+		// events("kind"): number of trace events of that kind emitted so far
+		argc(1)
+		if e.Args[0].Op != "str" {
+			c.fail("events(\"kind\")")
+		}
+		return vInt(sSel(st.comp("ncall", 1, "Int"), eng.strID(e.Args[0].Str)), types.Typ[types.Int])
 	case "cbfree":
 		// no lock declared callback_free is held
 		argc(0)
@@ -940,6 +947,56 @@ func (c *EvalCtx) evalCall(e *Expr) *V {
 				c.fail("arr() expects a slice")
 			}
 			return vInt(a.Arr, types.Typ[types.UnsafePointer])
+		}
+	case "uf":
+		// uf("name", args...): the uninterpreted function a library model uses for that operation (Int-valued)
+		if len(e.Args) < 1 || e.Args[0].Op != "str" {
+			c.fail("uf(\"name\", args...)")
+		}
+		{
+			var ts, sorts []string
+			for _, a := range e.Args[1:] {
+				v := c.eval(a)
+				for _, l := range leavesSorted(v) {
+					ts = append(ts, l[0])
+					sorts = append(sorts, l[1])
+				}
+			}
+			fn := mangle("uf:" + e.Args[0].Str)
+			eng.declare("(declare-fun " + fn + " (" + strings.Join(sorts, " ") + ") Int)")
+			return vInt(sApp(fn, ts...), types.Typ[types.String])
+		}
+	case "ufbool":
+		if len(e.Args) < 1 || e.Args[0].Op != "str" {
+			c.fail("ufbool(\"name\", args...)")
+		}
+		{
+			var ts, sorts []string
+			for _, a := range e.Args[1:] {
+				v := c.eval(a)
+				for _, l := range leavesSorted(v) {
+					ts = append(ts, l[0])
+					sorts = append(sorts, l[1])
+				}
+			}
+			fn := mangle("uf:" + e.Args[0].Str)
+			eng.declare("(declare-fun " + fn + " (" + strings.Join(sorts, " ") + ") Bool)")
+			return vBool(sApp(fn, ts...))
+		}
+	case "sprintf1":
+		// sprintf1(format, s): fmt.Sprintf(format, s) for one string argument (model function)
+		argc(2)
+		{
+			f, a := c.intOf(e.Args[0]), c.intOf(e.Args[1])
+			eng.declare("(declare-fun |uf:fmt.Sprintf1| (Int Int Int) Int)")
+			return vInt("(|uf:fmt.Sprintf1| "+f+" "+eng.typeID(types.Typ[types.String])+" "+a+")", types.Typ[types.String])
+		}
+	case "strAt":
+		// strAt(arr, off, k): k-th element of the []string with that backing array and offset (current state)
+		argc(3)
+		{
+			a, o, k := c.intOf(e.Args[0]), c.intOf(e.Args[1]), c.intOf(e.Args[2])
+			return st.load(st.elemLoc(a, st.ixTerm(o, k), types.Typ[types.String]))
 		}
 	case "errOf":
 		// errOf(tag, val): the error value with that dynamic type tag and payload
